@@ -1079,8 +1079,30 @@ def check_C18(ctx):
                        {"RefreshRound": 300, "BootSuccess": 50})
 
 
+BOOT_MC_CFG = """SPECIFICATION Spec
+CONSTANTS
+  CAP = %(cap)d
+  NCONTACTS = %(n)d
+  ROUTERS = FALSE
+  GOODFOUND = 3
+  BUCKET_MS = %(bucket)d
+  MAXATTEMPTS = 16
+INVARIANT ResponsiveBound
+INVARIANT NoSuccessBeforeAnswer
+CHECK_DEADLOCK FALSE
+"""
+
+
 def check_C15(ctx):
     handler_mc(ctx, "C15")
+    # timing of the bootstrap worker (spec/Bootstrap.tla): whatever the outage, 11 minutes after the network comes back;
+    # a back-off capped at 2^10 s instead of 2^9 s must violate the bound
+    for n, bucket in ((1, 0), (30, 80000)):
+        r = vlib.tlc("mc/MC_Bootstrap.tla", ctx.cfg("mcboot-%d.cfg" % n, BOOT_MC_CFG % dict(cap=9, n=n, bucket=bucket)), workers=2, timeout=300)
+        vlib.require_mc_ok(r, "MC_Bootstrap")
+        ctx.add_mc("MC_Bootstrap(contacts=%d, bucket phase %d ms, outage ending after any attempt)" % (n, bucket), r)
+    neg = vlib.tlc("mc/MC_Bootstrap.tla", ctx.cfg("mcboot-neg.cfg", BOOT_MC_CFG % dict(cap=10, n=30, bucket=80000)), workers=2, timeout=300)
+    vlib.require_mc_fails(neg, "ResponsiveBound", "CAP=10")
     ctx.assumptions += LOOKUP_ASSUME + ["routers are given as IP literals (the sandbox has no DNS)",
                                         "the 11-minute bound is checked for plain-node configurations from the instant the network becomes reachable"]
     seeds = list(range(0, 16)) if ctx.quick else list(range(0, 70))
